@@ -132,7 +132,7 @@ LIT_FORMS = {
     "(try (raise (ValueError %s)) (except [try ValueError] (str try)))": 1,
     # match patterns over literals
     "(match %s -1 \"a\" -2.5 \"b\" -0.0 \"c\" 1+2j \"d\" -1-2j \"e\" _ \"f\")": 1, "(match %s Inf 1 -Inf 2 _ 3)": 1, "(match %s NaN 1 _ 3)": 1,
-    "(match [%s %s] [a #* b] [a b])": 2, "(match {\"k\" %s} {\"k\" v #** r} [v r])": 1, "(match %s (| -1 2j) 1 _ 0)": 1,
+    "(match [%s %s] [a #* b] [a b])": 2, "(match [%s %s] [a #* b.c] [a])": 2, "(match [%s %s] [a #* 5] [a])": 2, "(match [%s %s] [a #* \"s\"] [a])": 2, "(match {\"k\" %s} {\"k\" v #** r} [v r])": 1, "(match %s (| -1 2j) 1 _ 0)": 1,
     "((fn [#^ int #* xs] (len xs)) %s %s)": 2, "((fn [a #^ dict #** kw] [a (sorted (.items kw))]) %s :k %s)": 2, "((fn [#^ int a] a) %s)": 1,
     "((fn [a * #^ int b] [a b]) %s :b %s)": 2, "((fn [#^ int a / b] [a b]) %s %s)": 2, "((fn [#^ int #* xs #^ int #** kw] [xs (sorted kw)]) %s :z %s)": 2,
     "(** %s %s)": 2, "(** %s %s %s)": 3, "(- %s)": 1, "(- (- %s))": 1, "(+ %s %s)": 2, "(* %s %s)": 2, "(/ %s %s)": 2, "(// %s %s)": 2, "(% %s %s)": 2,
